@@ -439,3 +439,7 @@ def check(ctx: Ctx) -> None:
     # "writing after close raises OSError": whoever has observed the close (waitclose() returned) finds the channel closed
     from .C03 import check_close_published_last
     check_close_published_last(ctx, "C19.f")
+
+    # "empty results once the channel has ended", also on the second read after an unclean end: the end marker stays queued
+    from .C03 import check_endmarker_requeue
+    check_endmarker_requeue(ctx, "C19.g")
